@@ -259,6 +259,14 @@ def rule_R2(text):
         return "for __k_%s in 0..%s.len() { let %s = %s[__k_%s];" % (x, v, x, v, x)
 
     text = re.sub(r"for\s+&(\w+)\s+in\s+&?(\w+)\s*\{", repl, text)
+
+    def repl2(m):
+        nonlocal count
+        count += 1
+        i, x, v = m.group(1), m.group(2), m.group(3)
+        return "for %s in 0..%s.len() { let %s = %s[%s];" % (i, v, x, v, i)
+
+    text = re.sub(r"for\s+\((\w+),\s*&(\w+)\)\s+in\s+(\w+)\.iter\(\)\.enumerate\(\)\s*\{", repl2, text)
     return text, count
 
 
@@ -343,7 +351,7 @@ def resolve_anchor(anchor, text, mask, body_open, body_close):
             return ob
         if where == "body-start":
             # skip the `let x = v[__k_x];` statement introduced by rule R2
-            m = re.match(r"\s*let \w+ = \w+\[__k_\w+\];", text[ob + 1:cb])
+            m = re.match(r"\s*let \w+ = \w+\[\w+\];", text[ob + 1:cb])
             return ob + 1 + (m.end() if m else 0)
         if where == "body-end":
             return cb
